@@ -87,6 +87,8 @@ Ranges == {Rng(lb, lo, hi, rb) : lb \in {"[", "!["}, rb \in {"]", "]!"},
           \cup {Rng("[", NumA("3"), NumA("1"), "]"), Rng("[", Own("x"), NumA("3"), "]"),
                 Rng("![", NumA("1"), Own("y"), "]!"), Rng("[", Own("x"), Own("y"), "]"),
                 Rng("[", NumA("1.5"), NumA("3"), "]"), Rng("[", Un("-", NumA("1")), NumA("1"), "]")}
+FoldRanges == {Rng(lb, lo, hi, rb) : lb \in {"[", "!["}, rb \in {"]", "]!"},
+                                     lo \in {Bn("+", NumA("1"), NumA("1")), NumA("2")}, hi \in {Bn("*", NumA("2"), NumA("3")), Bn("+", NumA("3"), NumA("0")), NumA("3")}}
 Compounds == Sets \cup Ranges \cup {Own("xs")}
 Fun1Num == {"abs", "sqrt", "ceil", "floor", "sin", "cos", "tan", "asin", "acos", "atan", "deg", "rad"}
 Calls ==
@@ -100,6 +102,8 @@ Inclusions ==
   {Bn("in", a, c) : a \in {Own("x"), NumA("1"), NumA("2"), Bn("+", Own("x"), NumA("1"))}, c \in Compounds}
   \cup {Un("not", Bn("in", a, c)) : a \in {Own("x"), NumA("3")}, c \in Ranges}
   \cup {c : c \in Sets \cup Ranges}
+  \cup {Bn("in", a, c) : a \in {Own("x"), NumA("2"), NumA("3"), NumA("6")}, c \in FoldRanges}
+  \cup {Bn("=", Call(f, c), Own("y")) : f \in {"len", "sum", "max", "min"}, c \in FoldRanges}
 
 (* ---- quantifiers ---- *)
 K == VarR("@k")
@@ -205,6 +209,14 @@ ClashTerms ==
         Bn("and", Bn(">", Call("len", Own("z")), NumA("0")), Bn("<", Own("z"), NumA("3"))),
         Bn("and", Qn("forall", "k", Own("z"), Bn(">", K, NumA("0"))), Bn("=", Own("z"), StrA("$s"))),
         Bn("and", Bn("=", Own("x"), NumA("1")), Bn("=", Own("x"), BoolA("True")))}
+  \* three occurrences of one reference: two incompatible ones separated by an occurrence in a generic position
+  \cup {Bn("and", Bn("and", a, g), b) : a \in {Bn(">", r3, NumA("0")) : r3 \in {Own("x")}},
+                                        g \in {Call("bool", Own("x")), Bn("in", Own("x"), SetOf(<<NumA("1"), StrA("$s")>>)), Bn("=", Own("x"), Own("w")),
+                                                Bn("=", Call("str", Own("x")), StrA("$s"))},
+                                        b \in {Bn("=", Own("x"), StrA("$s")), Bn("implies", Own("x"), Own("y")), Un("not", Own("x"))}}
+  \cup {Bn("and", b, Bn("and", g, a)) : a \in {Bn("<", Fld(VarR("@A"), "n"), NumA("0"))},
+                                        g \in {Call("bool", Fld(VarR("@A"), "n")), Bn("=", Fld(VarR("@A"), "n"), Own("w"))},
+                                        b \in {Bn("=", Fld(VarR("@A"), "n"), StrA("$s")), Fld(VarR("@A"), "n")}}
   \* top level of a predicate is not boolean
   \cup {Bn("+", Own("x"), NumA("1")), NumA("1"), StrA("$s"), SetOf(<<NumA("1"), NumA("2")>>), Call("abs", Own("x")),
         Rng("[", NumA("1"), NumA("2"), "]"), Un("-", Own("x")), Call("len", Own("xs"))}
